@@ -408,4 +408,41 @@ def all_assigned_names(stmt) -> set:
 
 
 def names_in(expr) -> set:
-    return {n.id for n in ast.walk(expr) if isinstance(n, ast.Name)}
+    """Free names of an expression (comprehension / lambda bound names are excluded)."""
+    out = set()
+
+    def walk(n, bound):
+        if isinstance(n, ast.Name):
+            if n.id not in bound:
+                out.add(n.id)
+            return
+        if isinstance(n, (ast.ListComp, ast.SetComp, ast.GeneratorExp, ast.DictComp)):
+            b = set(bound)
+            for i, g in enumerate(n.generators):
+                walk(g.iter, b if i else bound)
+                b |= {x.id for x in ast.walk(g.target) if isinstance(x, ast.Name)}
+                for c in g.ifs:
+                    walk(c, b)
+            if isinstance(n, ast.DictComp):
+                walk(n.key, b)
+                walk(n.value, b)
+            else:
+                walk(n.elt, b)
+            return
+        if isinstance(n, ast.Lambda):
+            a = n.args
+            b = set(bound) | {x.arg for x in a.posonlyargs + a.args + a.kwonlyargs}
+            if a.vararg:
+                b.add(a.vararg.arg)
+            if a.kwarg:
+                b.add(a.kwarg.arg)
+            for d in a.defaults + [k for k in a.kw_defaults if k is not None]:
+                walk(d, bound)
+            walk(n.body, b)
+            return
+        for c in ast.iter_child_nodes(n):
+            walk(c, bound)
+
+    if expr is not None:
+        walk(expr, frozenset())
+    return out
